@@ -81,7 +81,8 @@ def gen_scenario(rng, force=None):
     if implicit:
         sort = sort or ("sort" if threads == 1 else None)
     s = dict(entries=entries, mode=mode, threads=threads, sort=sort, implicit=implicit,
-             no_messages=rng.random() < 0.15, follow=rng.random() < 0.15, max0=rng.random() < 0.04)
+             no_messages=rng.random() < 0.15, follow=rng.random() < 0.15, max0=rng.random() < 0.04,
+             stats=(mode in ("quiet", "std", "count") and rng.random() < 0.35))
     if force:
         s.update(force)
     return s
@@ -200,6 +201,8 @@ def args_of(s):
         a.append("-L")
     if s["max0"]:
         a += ["-m", "0"]
+    if s.get("stats"):
+        a.append("--stats")
     if m != "files":
         a += ["-e", PAT]
     if not s["implicit"]:
@@ -229,7 +232,8 @@ def model_line(s, items, one_file, pipe_at=None, avail=4):
     mode = 1 if s["mode"] == "files" else 0
     smode = dict(std=0, count=3, list=1, files=0, quiet=0)[s["mode"]]
     sort = vopt(None) if not s["sort"] else vopt(vlist([vbool(s["sort"] == "sortr"), "0"]))
-    line = vlist(["2", str(mode), str(smode), "0", vbool(s["max0"]), vbool(s["mode"] == "quiet"), "0", sort,
+    line = vlist(["2", str(mode), str(smode), "0", vbool(s["max0"]), vbool(s["mode"] == "quiet"),
+                  vbool(bool(s.get("stats"))), sort,
                   vopt(str(s["threads"])), vbool(one_file), str(avail), vbool(s["implicit"]),
                   vbool(not s["no_messages"]), vbytes(b""), vopt(None), vbytes(b"\n"), "1", vlist(its)])
     return line, ids
@@ -323,6 +327,12 @@ def check_fault_scenarios(ctx, scns, avail):
         # ---- model vs code
         path_of = {v: k for k, v in ids.items()}
         got_diags = classify_stderr(r["err"])
+        rg_out = r["out"]
+        if s.get("stats"):
+            mm = re.search(rb"(^|\n)\n\d+ matches\n\d+ matched lines\n", rg_out)
+            if mm:
+                rg_out = rg_out[:mm.start() + (1 if mm.group(1) else 0)]
+            ctx.cov["stats_runs"] = ctx.cov.get("stats_runs", 0) + 1
         exp_diags = [(max(k, 1) if k < 2 else k, path_of.get(i, "")) for k, i in m_diags]
         ordered = (not par) and s["sort"] != "sortr" and not (s["implicit"] and not s["sort"])
         has_dir = any(e["kind"] == "dir" for e in s["entries"]) or s["implicit"]
@@ -331,19 +341,19 @@ def check_fault_scenarios(ctx, scns, avail):
         bad = None
         if r["status"] != m_status:
             bad = "status: rg %d, model %d" % (r["status"], m_status)
-        elif quiet and (par or not ordered):
+        elif quiet and not s.get("stats") and (par or not ordered):
             if not set(got_diags) <= set((k, p) for k, p in _all_possible_diags(s, items)):
                 bad = "stderr has a diagnostic that no item explains: %r" % (got_diags,)
         elif ordered:
             if got_diags != exp_diags:
                 bad = "stderr (ordered): rg %r, model %r" % (got_diags, exp_diags)
-            elif r["out"] != m_out:
-                bad = "stdout: rg %r, model %r" % (r["out"], m_out)
+            elif rg_out != m_out:
+                bad = "stdout: rg %r, model %r" % (rg_out, m_out)
         else:
             if sorted(got_diags) != sorted(exp_diags):
                 bad = "stderr (as multiset): rg %r, model %r" % (got_diags, exp_diags)
-            elif sorted(r["out"].split(b"\n")) != sorted(m_out.split(b"\n")):
-                bad = "stdout (as multiset of lines): rg %r, model %r" % (r["out"], m_out)
+            elif sorted(rg_out.split(b"\n")) != sorted(m_out.split(b"\n")):
+                bad = "stdout (as multiset of lines): rg %r, model %r" % (rg_out, m_out)
         # ---- the property's table, directly on the scenario
         searched = [i for i in items if i["kind"] == "hay"]
         any_match = any(i["res"] == 0 for i in searched)
@@ -707,6 +717,13 @@ def corpus():
              implicit=False, no_messages=False, follow=False, max0=False),
         dict(entries=[f("a", ["hit"]), f("b", ["hit"])], mode="std", threads=1, sort=None, implicit=False,
              no_messages=False, follow=False, max0=True),
+        # quiet is not quit_after_match: -q --stats searches everything, still exits 0 on a match despite an error
+        dict(entries=[f("a", ["hit"]), dict(name="u", kind="unreadable", lines=["hit"])], mode="quiet", threads=1,
+             sort=None, implicit=False, no_messages=False, follow=False, max0=False, stats=True),
+        dict(entries=[dict(name="u", kind="unreadable", lines=["hit"]), f("a", ["hit"]), f("b", ["zzz"])], mode="quiet",
+             threads=4, sort=None, implicit=False, no_messages=False, follow=False, max0=False, stats=True),
+        dict(entries=[dict(name="u", kind="unreadable", lines=["hit"]), f("b", ["zzz"])], mode="quiet",
+             threads=1, sort=None, implicit=False, no_messages=True, follow=False, max0=False, stats=True),
     ]
 
 
